@@ -46,9 +46,17 @@ class Spec:
     def shrinkable_from(self):
         return 1  # index of the first op line that may be deleted when shrinking
 
+    # free exploration (model-independent monitors only; generate(..., "search")) run on every check, not only after a
+    # broken obligation: number of cases per tier (0 = the component has no such mode)
+    free_quick = 0
+    free_thorough = 0
+
     def extra_impl_checks(self, engine, tier, seed):
         """property-specific additional runs (e.g. free exploration); returns dict merged into coverage"""
-        return {}
+        n = self.free_quick if tier == "quick" else self.free_thorough
+        if n <= 0:
+            return {}
+        return engine.free_exploration(n, seed)
 
 
 def fmt_case(component, idx, suffix, lines):
@@ -182,6 +190,25 @@ class Engine:
                      "oracle_messages": msgs, "sanitizer": san_summary(ie2)})
                 n += 1
         return n
+
+    def free_exploration(self, n, seed):
+        """failing-input search that needs no broken obligation: the implementation alone, every scheduling point a
+        seeded random choice, judged by the harness's model-independent monitors"""
+        spec = self.spec
+        rng = Rng((seed * 7919) ^ 0xF4EE)
+        gen = spec.generate(rng, n, "search")
+        cases = [fmt_case(spec.component, f"free{seed}.{i}", sfx, l) for i, (sfx, l) in enumerate(gen)]
+        evals, clean = 0, 0
+        for k in range(0, len(cases), spec.case_chunk):
+            text = "".join(case_text(h, l) for h, l in cases[k:k + spec.case_chunk])
+            rc_i, io, ie = run_harness(self.exe, text, timeout=spec.harness_timeout, env_extra=spec.harness_env)
+            cmpr = compare(text, io, io)
+            evals += cmpr.n
+            cmpr.oracle = [(h, [m for m in ms if spec.oracle_relevant(m)]) for h, ms in cmpr.oracle]
+            cmpr.oracle = [(h, ms) for h, ms in cmpr.oracle if ms]
+            clean += cmpr.n - len({h for h, _ in cmpr.oracle} | {h for h, _ in cmpr.crashes})
+            self.report_from(cmpr, text, ie, "free exploration of every scheduling point (no model involved)")
+        return {"evaluations": evals, "free_exploration_cases": evals, "free_exploration_clean": clean}
 
     # -------------------------------------------------------------------------------------
     def main(self):
